@@ -16,7 +16,8 @@ import os
 import sys
 
 INT, BOOL, OPTINT, OPTBOOL, STR, LISTPAIR = "int", "bool", "optint", "optbool", "str", "listpair"
-COQTY = {INT: "Z", BOOL: "bool", OPTINT: "option Z", OPTBOOL: "option bool", LISTPAIR: "list (Z * Z)", STR: "string"}
+INTPAIR, INTFUN = "intpair", "intfun"      # a returned 2-tuple of ints; the builtin `int` held in a local name
+COQTY = {INT: "Z", BOOL: "bool", OPTINT: "option Z", OPTBOOL: "option bool", LISTPAIR: "list (Z * Z)", STR: "string", INTPAIR: "(Z * Z)"}
 
 
 class Rec:
@@ -61,8 +62,11 @@ class Fn:
     """one target: class name, function name, kind ('method'|'getter'|'setter'|'classmethod'), parameter types,
     self field types, the self fields reported in the result, and whether a return value is reported"""
 
-    def __init__(self, cls, name, kind, params, selff, out_fields, ret, coq_name, file=None):
+    def __init__(self, cls, name, kind, params, selff, out_fields, ret, coq_name, file=None, assume=None):
         self.cls, self.name, self.kind, self.params, self.selff = cls, name, kind, params, selff
+        # assume: boolean self fields fixed by the envelope of the Tie theorem ({"is_float": False}); they are read as the
+        # literal, and an `if` on such a literal is translated on the live arm only (the dead arm may leave the subset)
+        self.assume = assume or {}
         self.out_fields, self.ret, self.coq_name, self.file = out_fields, ret, coq_name, file
 
 
@@ -99,6 +103,8 @@ TARGETS = [
     Fn("Frame", "calc_dlc", "method", [], None, ["size"], None, "gen_calc_dlc", file="Gen_layout.v"),
     Fn("CanMatrix", "recalc_dlc", "method", [("strategy", STR)], None, ["frames"], None, "gen_recalc_dlc", file="Gen_layout.v"),
 ]
+TARGETS.append(Fn("Signal", "calculate_raw_range", "method", [], {"size": INT, "is_signed": BOOL}, [], INTPAIR,
+                  "gen_calculate_raw_range", file="Gen_scaling.v", assume={"is_float": False}))
 SIG_REC = Rec("Signal", {"is_little_endian": BOOL, "size": INT, "start_bit": INT})
 PDU_REC = Rec("Pdu", {"size": INT})
 FRAME_SELF = {"is_pdu_container": BOOL, "pdus": ListOf(PDU_REC), "signals": ListOf(SIG_REC), "size": INT}
@@ -149,6 +155,8 @@ def expr(e, env, cx):
     if isinstance(e, ast.Name):
         if e.id in env:
             return [], env[e.id][0], env[e.id][1]
+        if e.id == "int":
+            return [], "", INTFUN                             # the builtin, usable only as `f = int` ... `f(<int>)`
         bad(e, "unknown name")
     if isinstance(e, ast.Attribute) and isinstance(e.value, ast.Name) and e.value.id in ("self", "cls"):
         key = "self." + e.attr
@@ -180,6 +188,16 @@ def expr(e, env, cx):
         if tl != INT or tr != INT:
             bad(e, "max() of non-ints")
         return b1 + b2, "(Z.max %s %s)" % (l, r), INT
+    if isinstance(e, ast.BinOp) and isinstance(e.op, ast.Pow):
+        # <positive literal> ** <int>: an int for a non-negative exponent; a negative exponent gives a Python float,
+        # which is outside the subset - the generated function answers None there (fail closed)
+        if not (isinstance(e.left, ast.Constant) and isinstance(e.left.value, int) and not isinstance(e.left.value, bool) and e.left.value > 0):
+            bad(e, "power of a non-literal base")
+        b2, r, tr = expr(e.right, env, cx)
+        if tr != INT:
+            bad(e, "non-int exponent")
+        v = cx.fresh("pw")
+        return b2 + [(v, "(if %s <? 0 then None else Some (%d ^ %s))" % (r, e.left.value, r))], v, INT
     if isinstance(e, ast.BinOp):
         b1, l, tl = expr(e.left, env, cx)
         b2, r, tr = expr(e.right, env, cx)
@@ -224,6 +242,18 @@ def expr(e, env, cx):
         if ty != LISTPAIR and not isinstance(ty, ListOf):
             bad(e, "len() of a non-list")
         return b, "(Z.of_nat (length %s))" % t, INT
+    if isinstance(e, ast.Call) and isinstance(e.func, ast.Name) and env.get(e.func.id, (None, None))[1] == INTFUN \
+            and len(e.args) == 1 and not e.keywords:
+        b, t, ty = expr(e.args[0], env, cx)
+        if ty != INT:
+            bad(e, "int() of non-int")
+        return b, t, INT
+    if isinstance(e, ast.Tuple) and len(e.elts) == 2:
+        b1, l, tl = expr(e.elts[0], env, cx)
+        b2, r, tr = expr(e.elts[1], env, cx)
+        if tl != INT or tr != INT:
+            bad(e, "tuple of non-ints")
+        return b1 + b2, "(%s, %s)" % (l, r), INTPAIR
     if isinstance(e, ast.Call) and isinstance(e.func, ast.Name) and e.func.id == "int" and len(e.args) == 1:
         b, t, ty = expr(e.args[0], env, cx)
         if ty != INT:
@@ -670,6 +700,12 @@ def stmts(body, env, cx, k_end, k_break=None):
             bad(s, "assignment of an object or list")
         if key in env and env[key][1] != ty and not (env[key][1] == BOOL and ty == BOOL):
             bad(s, "assignment changes the type")
+        if ty == INTFUN:
+            if not isinstance(tgt, ast.Name):
+                bad(s, "the builtin int stored in a field")
+            env2 = dict(env)
+            env2[key] = ("", INTFUN)
+            return with_binds(b, nxt(env2))
         v = cx.fresh(key)
         if ty == "none":
             t = "(@None Z)"                                  # a bare None has no type of its own in Gallina
@@ -717,6 +753,9 @@ def stmts(body, env, cx, k_end, k_break=None):
         return "match find (fun %s => %s) %s with Some %s => (%s) | None => (%s) end" % (pv, c, lst, pv, t_found, t_none)
     if isinstance(s, ast.If):
         b, c = cond(s.test, env, cx)
+        if not b and c in ("true", "false") and cx.fn.assume:
+            # a test fixed by Fn.assume: only the live arm is what runs inside the envelope
+            return stmts(s.body if c == "true" else s.orelse, env, cx, nxt, k_break)
         t_then = stmts(s.body, env, cx, nxt, k_break)
         t_else = stmts(s.orelse, env, cx, nxt, k_break)
         return with_binds(b, "if %s then (%s) else (%s)" % (c, t_then, t_else))
@@ -797,6 +836,8 @@ def translate(fn, fdef, classes, consts, getters, status=None, funcs=None):
         v = "self_" + f
         env["self." + f] = (v, fn.selff[f])
         binders.append("(%s : %s)" % (v, coqty(fn.selff[f])))
+    for f, val in sorted(fn.assume.items()):
+        env["self." + f] = ("true" if val else "false", BOOL)
     args = [a.arg for a in fdef.args.args][1:]
     if args != [p for p, _ in fn.params]:
         raise Untranslatable("parameter list of %s.%s is %s, expected %s" % (fn.cls, fn.name, args, [p for p, _ in fn.params]))
